@@ -4254,6 +4254,13 @@ class Macro:
                 raise IllegalParseTree("Invalid argument type for argument " + argspec.name, value)
             if argspec.should_early_bind():
                 value = parse_ctx._lookup_named_entity(argspec.kind, value.children[0])
+            elif value.data == "identifier_const":
+                # A bare identifier may name a match/expr argument of the calling macro: substitute it now, in the caller's scope,
+                # so that it is not looked up again (possibly finding itself) once the callee's frame is active.
+                try:
+                    value = parse_ctx._lookup_named_entity(MacroArgumentKind.EXPR, value.children[0])
+                except UndefinedReferenceError:
+                    pass
             bound_arguments[(argspec.get_lookup_type(), argspec.name)] = value
         return bound_arguments
 
